@@ -101,7 +101,11 @@ func (e *Enc) encCall(v ssa.Value, c *ssa.CallCommon, st *State, guard string, d
 			}
 		}
 	}
-	fc := e.w.callContract(ci.key)
+	variant := ""
+	if e.fc != nil {
+		variant = e.fc.Variant
+	}
+	fc := e.w.callContractFor(ci.key, e.mode.String(), variant)
 	n := e.callCount[ci.key]
 	e.callCount[ci.key] = n + 1
 	if fc == nil {
@@ -348,6 +352,9 @@ func (e *Enc) havocDesignator(d string, ctx *evalCtx, st *State, guard, why stri
 		} else {
 			fv := e.freshConst("mod", dk.elemSort)
 			e.guardedSet(st, dk.key, guard, fmt.Sprintf("(store %s %s %s)", old, dk.index, fv))
+			if dk.typ != nil {
+				e.assumeWFg(fv, dk.typ, st, "true")
+			}
 		}
 	}
 }
